@@ -127,6 +127,7 @@ pub fn decode_case_opt(ctx: &mut RunCtx, fx: &Fixture, o: Obj, bytes: &[u8], wha
         })
     });
     let (peak, maxreq) = allocseam::end(mark);
+    ctx.st.log(digest(bytes) ^ matches!(&r, Ok(Decoded::Rejected)) as u64);
     let d = match r {
         Ok(d) => d,
         Err(p) => return Err(panic_v("decoding", p)),
